@@ -127,18 +127,22 @@ impl Gate {
 }
 
 struct GatedIo {
-    inner: DuplexStream,
+    inner: RefCell<DuplexStream>,
     gate: Rc<RefCell<Gate>>,
+    /// bytes taken from the transport by a readiness probe and not yet handed to a reader: `poll_read_ready` is faithful
+    /// (Ready only while a read would return something, like a socket), so a stream that asks for readiness before it
+    /// hands out plaintext it has already decrypted is observed to stall
+    stash: RefCell<std::collections::VecDeque<u8>>,
 }
 
-impl AsyncRead for GatedIo {
-    fn poll_read(
-        self: Pin<&mut Self>,
-        cx: &mut Context<'_>,
-        buf: &mut ReadBuf<'_>,
-    ) -> Poll<io::Result<()>> {
-        let this = self.get_mut();
-        let mut g = this.gate.borrow_mut();
+impl GatedIo {
+    fn new(inner: DuplexStream, gate: Rc<RefCell<Gate>>) -> Self {
+        GatedIo { inner: RefCell::new(inner), gate, stash: RefCell::new(Default::default()) }
+    }
+
+    /// what the gate lets through right now, read from `src` into `buf`
+    fn gated_read(gate: &Rc<RefCell<Gate>>, src: &mut DuplexStream, cx: &mut Context<'_>, buf: &mut ReadBuf<'_>) -> Poll<io::Result<()>> {
+        let mut g = gate.borrow_mut();
         if buf.remaining() == 0 {
             return Poll::Ready(Ok(()));
         }
@@ -146,7 +150,7 @@ impl AsyncRead for GatedIo {
             let room = (g.quota - g.consumed).min(buf.remaining() as u64) as usize;
             let mut tmp = vec![0u8; room];
             let mut rb = ReadBuf::new(&mut tmp);
-            return match Pin::new(&mut this.inner).poll_read(cx, &mut rb) {
+            return match Pin::new(src).poll_read(cx, &mut rb) {
                 Poll::Ready(Ok(())) => {
                     let n = rb.filled().len();
                     buf.put_slice(rb.filled());
@@ -175,25 +179,62 @@ impl AsyncRead for GatedIo {
     }
 }
 
+impl AsyncRead for GatedIo {
+    fn poll_read(
+        self: Pin<&mut Self>,
+        cx: &mut Context<'_>,
+        buf: &mut ReadBuf<'_>,
+    ) -> Poll<io::Result<()>> {
+        let this = self.get_mut();
+        {
+            let mut st = this.stash.borrow_mut();
+            if !st.is_empty() {
+                while buf.remaining() > 0 {
+                    match st.pop_front() {
+                        Some(b) => buf.put_slice(&[b]),
+                        None => break,
+                    }
+                }
+                return Poll::Ready(Ok(()));
+            }
+        }
+        Self::gated_read(&this.gate, this.inner.get_mut(), cx, buf)
+    }
+}
+
 impl AsyncWrite for GatedIo {
     fn poll_write(
         self: Pin<&mut Self>,
         cx: &mut Context<'_>,
         buf: &[u8],
     ) -> Poll<io::Result<usize>> {
-        Pin::new(&mut self.get_mut().inner).poll_write(cx, buf)
+        Pin::new(self.get_mut().inner.get_mut()).poll_write(cx, buf)
     }
     fn poll_flush(self: Pin<&mut Self>, cx: &mut Context<'_>) -> Poll<io::Result<()>> {
-        Pin::new(&mut self.get_mut().inner).poll_flush(cx)
+        Pin::new(self.get_mut().inner.get_mut()).poll_flush(cx)
     }
     fn poll_shutdown(self: Pin<&mut Self>, cx: &mut Context<'_>) -> Poll<io::Result<()>> {
-        Pin::new(&mut self.get_mut().inner).poll_shutdown(cx)
+        Pin::new(self.get_mut().inner.get_mut()).poll_shutdown(cx)
     }
 }
 
 impl ActixStream for GatedIo {
-    fn poll_read_ready(&self, _: &mut Context<'_>) -> Poll<io::Result<Ready>> {
-        Poll::Ready(Ok(Ready::READABLE))
+    fn poll_read_ready(&self, cx: &mut Context<'_>) -> Poll<io::Result<Ready>> {
+        if !self.stash.borrow().is_empty() {
+            return Poll::Ready(Ok(Ready::READABLE));
+        }
+        // probe: whatever a read would return now is taken into the stash (end of stream counts as readable)
+        let mut tmp = vec![0u8; 16 * 1024];
+        let mut rb = ReadBuf::new(&mut tmp);
+        let mut inner = self.inner.borrow_mut();
+        match Self::gated_read(&self.gate, &mut inner, cx, &mut rb) {
+            Poll::Ready(Ok(())) => {
+                self.stash.borrow_mut().extend(rb.filled().iter().copied());
+                Poll::Ready(Ok(Ready::READABLE))
+            }
+            Poll::Ready(Err(e)) => Poll::Ready(Err(e)),
+            Poll::Pending => Poll::Pending,
+        }
     }
     fn poll_write_ready(&self, _: &mut Context<'_>) -> Poll<io::Result<Ready>> {
         Poll::Ready(Ok(Ready::WRITABLE))
@@ -580,10 +621,7 @@ impl<'a> Run<'a> {
             eof: false,
             waker: None,
         }));
-        let io = GatedIo {
-            inner: server_end,
-            gate: gate.clone(),
-        };
+        let io = GatedIo::new(server_end, gate.clone());
         let mut res = String::new();
         let k = (self.ncall + 1) % self.svcs.len();   // readiness of one service is followed by a call on the other
         self.ncall += 1;
@@ -1059,7 +1097,7 @@ fn data_run(mat: &TlsMaterial, acc: &str, buf: usize, seed: u64) -> Vec<Value> {
         let svc = Svc::build(&acc, tls, Duration::from_secs(30));
         let (client_end, server_end) = tokio::io::duplex(buf);
         let gate = Rc::new(RefCell::new(Gate { quota: u64::MAX, consumed: 0, inject: vec![], inject_pos: 0, eof: false, waker: None }));
-        let sfut = svc.call(GatedIo { inner: server_end, gate });
+        let sfut = svc.call(GatedIo::new(server_end, gate));
         let cfut = tls_client(if rng.below(2) == 0 { "rustls" } else { "openssl" }, tls,
                               CountIo { inner: client_end, written: Rc::new(Cell::new(0)) });
         let hs = timeout(Duration::from_secs(60), async { tokio::join!(sfut, cfut) }).await;
@@ -1081,6 +1119,7 @@ fn data_run(mat: &TlsMaterial, acc: &str, buf: usize, seed: u64) -> Vec<Value> {
             for dir in ["s2c", "c2s"] {
                 // every other size goes through write_vectored
                 let vectored = ni % 2 == 1 && n >= 3;
+                let chunk = [usize::MAX, 1024, 257][rng.below(3)];
                 let payload = rng.bytes(n);
                 let (w, r): (&mut Box<dyn Rw>, &mut Box<dyn Rw>) = if dir == "s2c" { (&mut server, &mut client) } else { (&mut client, &mut server) };
                 let p2 = payload.clone();
@@ -1116,8 +1155,18 @@ fn data_run(mat: &TlsMaterial, acc: &str, buf: usize, seed: u64) -> Vec<Value> {
                         Ok::<(), String>(())
                     };
                     let rd = async {
+                        // the reader's buffer is the whole payload, 1 KiB or 257 bytes at a time (less than a TLS record:
+                        // plaintext that is already decrypted must be handed out without waiting for the transport)
                         let mut got = vec![0u8; n];
-                        r.read_exact(&mut got).await.map_err(|e| format!("read: {e}"))?;
+                        let mut off = 0usize;
+                        while off < n {
+                            let end = off.saturating_add(chunk).min(n);
+                            let k = r.read(&mut got[off..end]).await.map_err(|e| format!("read: {e}"))?;
+                            if k == 0 {
+                                return Err("read: early eof".to_string());
+                            }
+                            off += k;
+                        }
                         Ok::<Vec<u8>, String>(got)
                     };
                     tokio::join!(wr, rd)
